@@ -126,7 +126,7 @@ Proof. vm_compute. reflexivity. Qed.
 (* ---- watch mode: a change during a build triggers one more build ---- *)
 From V Require Import C20.WatchServe.
 Definition ex_watch : list wact :=
-  [XWatch; XClientStart; XClientRead; XEdit; XClientFinish;          (* first watch-mode build reads v0, edit during it *)
+  [XWatch; XFirstStart; XClientRead; XEdit; XClientFinish;           (* first watch-mode build reads v0, edit during it *)
    XWatcher; XWatcher; XWatcher; XWatcher; XWatcher;                  (* check, tick: dirty -> own build, read, publish, set *)
    XWatcher; XWatcher; XServeRecent;                                  (* check, tick: clean; the dev server answers from build 1 *)
    XDisposeStart; XWatcher; XDisposeReturn].
@@ -160,4 +160,15 @@ Proof. vm_compute. reflexivity. Qed.
 Example ex_watch_both_fail : history_ok [LCall 0 OpWatch; LCall 1 OpWatch; LRet 1 OpWatch RvErr; LRet 0 OpWatch RvErr] = false.
 Proof. vm_compute. reflexivity. Qed.
 Example ex_watch_both_succeed : history_ok [LCall 0 OpWatch; LCall 1 OpWatch; LRet 1 OpWatch RvUnit; LRet 0 OpWatch RvUnit] = false.
+Proof. vm_compute. reflexivity. Qed.
+
+(* Watch switched on while a non-watch build is in flight: that build records
+   no watch data; the edit is noticed only after the first watch-mode build,
+   which cannot start before the build in flight has ended *)
+Example ex_first_build_waits : wrun ws0 [XClientStart; XWatch; XFirstStart] = None.
+Proof. vm_compute. reflexivity. Qed.
+Example ex_watch_during_build :
+  option_map snd (wrun ws0 [XClientStart; XWatch; XClientRead; XClientFinish; XFirstStart; XClientRead; XClientFinish;
+                            XEdit; XWatcher; XWatcher]) =
+  Some [WTau; WTau; WTau; WTau; WTau; WTau; WTau; WEdit; WTau; WBuild 2].
 Proof. vm_compute. reflexivity. Qed.
